@@ -123,6 +123,9 @@ def _events():
     # strings that translate to nothing (only skipped words) in locales whose own order is not the default one
     ev("parse(only skip words, fr)", lambda a: P("le", languages=a["l"]), {"l": ["fr"]})
     ev("parse(only skip words, ru, autodetect)", lambda a: P("в"))
+    # a search that raises part-way through building a lazily cached per-locale list, then an ordinary search in that locale
+    ev("fail: search(da, bytes skip token)", lambda a: search_dates("Mødet blev holdt d. 5. januar 2014 kl. 10:30", languages=["da"], settings=a["s"]), {"s": {"SKIP_TOKENS": [b"t"]}}, core=True)
+    ev("search(da, dotted abbreviations)", lambda a: search_dates("Mødet blev holdt d. 5. januar 2014 kl. 10:30 i København.", languages=a["l"]), {"l": ["da"]}, core=True)
     # lenient clock spellings (24-hour value with a meridian) before ordinary 12-hour times
     ev("parse(16:50 pm)", lambda a: P("December 23, 2010, 16:50 pm", languages=["en"]))
     ev("parse(3:30 PM)", lambda a: P("March 5, 2024 3:30 PM", languages=["en"]))
